@@ -4,6 +4,43 @@ natural loops.  Edges are (src_block, dst_block, label) where label is the switc
 from collections import deque
 
 
+# crate functions that return one and the same enum variant on every path: {normalised path: variant index}; filled by
+# inline.apply() once the bodies are normalised (`impl From<Refusal> for Stop { fn from(w) -> Self { Self::Refused(w) } }`)
+FN_VARIANT = {}
+
+
+def _norm_callee(t):
+    f = t.get('func') or {}
+    fn = f.get('fn_resolved') or f.get('fn')
+    if not fn:
+        return None
+    try:
+        from facts import norm
+        return norm(fn)
+    except Exception:
+        return fn
+
+
+def _err_type(ty):
+    """E of `std::result::Result<T, E>` (top-level second argument)"""
+    if not ty or 'result::Result<' not in ty[:40]:
+        return None
+    inner = ty[ty.index('<') + 1:ty.rindex('>')]
+    depth, cur, parts = 0, '', []
+    for ch in inner:
+        if ch in '<([':
+            depth += 1
+        elif ch in '>)]':
+            depth -= 1
+        if ch == ',' and depth == 0:
+            parts.append(cur.strip())
+            cur = ''
+        else:
+            cur += ch
+    parts.append(cur.strip())
+    return parts[1] if len(parts) == 2 else None
+
+
 def term_succs(term):
     """[(target, label)] for a terminator."""
     k = term['k']
@@ -181,6 +218,12 @@ class CFG:
                     if kv and kv[0] == 'v':
                         val = ('c', kv[1])
                     discr_of[d['l']] = rv['p']['l']
+                elif rv['k'] == 'discr' and len(rv['p']['proj']) == 2 and isinstance(rv['p']['proj'][0], dict) and 'dc' in rv['p']['proj'][0] and \
+                        isinstance(rv['p']['proj'][1], dict) and rv['p']['proj'][1].get('f') == 0 and rv['p']['l'] not in bad:
+                    # `match (x as Err).0 { .. }`: the variant of the payload x was built with
+                    kv = f.get((rv['p']['l'], '#0'))
+                    if kv and kv[0] == 'v':
+                        val = ('c', kv[1])
                 elif rv['k'] == 'un' and rv.get('op') == 'Not' and rv['ops'][0]['k'] != 'const' and not rv['ops'][0]['p']['proj']:
                     kv = f.get(rv['ops'][0]['p']['l'])
                     if kv and kv[0] == 'c' and kv[1] in (0, 1):
@@ -209,6 +252,27 @@ class CFG:
                     elif 'option::Option<' in ty[:30]:
                         known = ('v', 0 if kv[1] == 1 else 1)
                 inner = f.get((y, '#0')) if y not in bad else None
+            if 'from_residual' in fn_ and t.get('args') and not t['dst'].get('proj') and dl_ is not None:
+                # `?` hands the failure on: the result is the failure variant of the return type; its payload went through
+                # `From::from` - when that conversion always builds one variant, the payload's variant is known too
+                dty = self.body.locals[dl_]['ty']
+                if 'result::Result<' in dty[:30]:
+                    known = ('v', 1)
+                    a0 = t['args'][0]
+                    sty = self.body.locals[a0['p']['l']]['ty'] if a0['k'] != 'const' and not a0['p']['proj'] else ''
+                    de, se = _err_type(dty), _err_type(sty)
+                    if de and se and de != se:
+                        v_ = FN_VARIANT.get('<%s as std::convert::From<%s>>::from' % (de, se))
+                        if v_ is not None:
+                            inner = ('v', v_)
+                    elif de and se and a0['k'] != 'const' and not a0['p']['proj']:
+                        inner = f.get((a0['p']['l'], '#0')) if a0['p']['l'] not in bad else None
+                elif 'option::Option<' in dty[:30]:
+                    known = ('v', 0)
+            elif known is None:
+                cv_ = FN_VARIANT.get(_norm_callee(t) or '')
+                if cv_ is not None and not t['dst'].get('proj'):
+                    known = ('v', cv_)
             f.pop(dl_, None)
             f.pop((dl_, '#0'), None)
             if dl_ not in bad:
